@@ -47,7 +47,7 @@ func inC19(f *eng.Fn) bool {
 
 func runC19(p *eng.Prog, r *eng.Report, tier string) {
 	c := &cx{p, r, tier}
-	c.r.Floor("C19.56", "string fields written when set", r19SetValuesAreWritten(c, "C19.56", inC19), 20)
+	c.r.Floor("C19.56", "string fields written when set", r19SetValuesAreWritten(c, "C19.56", inC19), 10)
 	c.r.Floor("C19.57", "top-level receiver stores of decoders", r19DecodersStoreOnEverySuccess(c, "C19.57", inC19), 5)
 	r17HashVocabularyAgrees(c, "C19.52")
 	c.r.Floor("C19.51", "functions scanned for package-level state", r17NoHiddenGlobalState(c, "C19.51"), 500)
